@@ -218,7 +218,7 @@ func runC01(c *Ctx, r *Report, tier string) {
 		_ = e
 		// paths that skip Set: only through an edge that establishes a non-nil error
 		// (a path through an error constructor carries a non-nil error: it is not a nil-error return)
-		path, ok := c.MustPass(po, isInstr(ret), orPred(apply, c.isCallTo("newErrorf", "newError")), func(l Lit) bool { return l.Pos && strings.HasPrefix(l.Term, "nonnil(phi{") }, nil)
+		path, ok := c.mustPassOrErr(po, ret, orPred(apply, c.isCallTo("newErrorf", "newError")))
 		r.Check(ok, "ONCE", pon, "a return without error has applied the occurrence", c.ipos(ret), "every path passes Option.Set / Option.empty or the `err != nil` edge", "a nil-error return is reachable without applying the option: "+pathStr(path))
 	}
 	// Set twice only through the optional-value loop
